@@ -168,6 +168,10 @@ def gen_fit(rng, family):
         J = min(J, 2)     # exact rationals through chained ridge solutions grow with the number of timesteps
     lens = [warm + rng.randint(2, 3 if multi_stage else 5) for _ in range(J)]
     X = [rows(rng, T, d) for T in lens]
+    int_input = family not in ("esn",) and hist is None and rng.random() < 0.15
+    if int_input:
+        # integer-typed input arrays (one-hot / count data): the states of the forward nodes, hence what every readout is fitted on, are still floats
+        X = [[[str(rng.randint(-3, 3)) for _ in range(d)] for _ in range(T)] for T in lens]
     ridges = [n["id"] for n in nodes if n["kind"] == "ridge"]
     ymode = rng.choice(["array", "mapping"])
     if ymode == "array":
@@ -178,6 +182,8 @@ def gen_fit(rng, family):
     sc = {"op": "fit", "family": family, "nodes": nodes, "edges": edges, "din": d, "X": X, "Y": Y,
           "xmode": rng.choice(["array", "mapping"]), "ymode": ymode, "warmup": warm,
           "reset": rng.random() < 0.3, "aslist": J > 1 or rng.random() < 0.3, "expect": expect}
+    if int_input:
+        sc["int_input"] = True
     if family == "esn":
         sc["reset"] = True     # ESN.fit resets the reservoir at the start of every sequence
         sc["xmode"] = "array"
@@ -246,6 +252,8 @@ class Built:
         sc = self.sc
         m = self.model
         seqs = [fl(s) for s in sc["X"]]
+        if sc.get("int_input"):
+            seqs = [np.rint(s).astype(np.int64) for s in seqs]
         xa = seqs if sc["aslist"] else seqs[0]
         if sc["xmode"] == "array":
             X = xa
